@@ -176,38 +176,86 @@ func (r *chanRewriter) node(n ast.Node) ast.Node {
 func (r *chanRewriter) selectStmt(s *ast.SelectStmt) ast.Node {
 	r.changed = true
 	var args []ast.Expr
+	var pre []ast.Stmt
 	sw := &ast.SwitchStmt{Body: &ast.BlockStmt{}}
-	for i, c := range s.Body.List {
+	hasDefault := false
+	ci := 0
+	for _, c := range s.Body.List {
 		cc := c.(*ast.CommClause)
+		body := make([]ast.Stmt, 0, len(cc.Body)+1)
 		if cc.Comm == nil {
-			r.fail("select with default is not supported")
+			// default clause: the select never waits, index -1
+			hasDefault = true
+			for _, st := range cc.Body {
+				body = append(body, r.node(st).(ast.Stmt))
+			}
+			sw.Body.List = append(sw.Body.List, &ast.CaseClause{List: []ast.Expr{&ast.UnaryExpr{Op: token.SUB, X: &ast.BasicLit{Kind: token.INT, Value: "1"}}}, Body: body})
+			continue
+		}
+		var recv *ast.UnaryExpr
+		var assign *ast.AssignStmt
+		switch st := cc.Comm.(type) {
+		case *ast.ExprStmt:
+			recv, _ = st.X.(*ast.UnaryExpr)
+		case *ast.AssignStmt:
+			if len(st.Rhs) == 1 && (len(st.Lhs) == 1 || len(st.Lhs) == 2) {
+				recv, _ = st.Rhs[0].(*ast.UnaryExpr)
+				assign = st
+			}
+		default:
+			r.fail("select case with a send is not supported")
 			return s
 		}
-		es, ok := cc.Comm.(*ast.ExprStmt)
-		if !ok {
-			r.fail("select case with assignment or send is not supported")
-			return s
-		}
-		u, ok := es.X.(*ast.UnaryExpr)
-		if !ok || u.Op != token.ARROW {
+		if recv == nil || recv.Op != token.ARROW {
 			r.fail("unsupported select case")
 			return s
 		}
-		ch := r.node(u.X).(ast.Expr)
-		fn := "RecvOf"
+		ch := r.node(recv.X).(ast.Expr)
+		isReal := false
 		if call, ok := ch.(*ast.CallExpr); ok {
 			if se, ok := call.Fun.(*ast.SelectorExpr); ok && se.Sel.Name == "Done" {
-				fn = "Real"
+				isReal = true
 			}
 		}
-		args = append(args, &ast.CallExpr{Fun: vchanSel(fn), Args: []ast.Expr{ch}})
-		body := make([]ast.Stmt, len(cc.Body))
-		for j, st := range cc.Body {
-			body[j] = r.node(st).(ast.Stmt)
+		switch {
+		case assign == nil && isReal:
+			args = append(args, &ast.CallExpr{Fun: vchanSel("Real"), Args: []ast.Expr{ch}})
+		case assign == nil:
+			args = append(args, &ast.CallExpr{Fun: vchanSel("RecvOf"), Args: []ast.Expr{ch}})
+		case isReal:
+			r.fail("select case that assigns from a Done channel is not supported")
+			return s
+		default:
+			// case v, ok = <-c  ->  slot := vchan.SlotOf(c) before the select, v, ok = slot.V, slot.Ok in the case
+			slot := ast.NewIdent("vchanSlot" + strconv.Itoa(ci))
+			pre = append(pre, &ast.AssignStmt{Lhs: []ast.Expr{slot}, Tok: token.DEFINE, Rhs: []ast.Expr{&ast.CallExpr{Fun: vchanSel("SlotOf"), Args: []ast.Expr{ch}}}})
+			args = append(args, &ast.CallExpr{Fun: &ast.SelectorExpr{X: slot, Sel: ast.NewIdent("Case")}})
+			rhs := []ast.Expr{&ast.SelectorExpr{X: slot, Sel: ast.NewIdent("V")}}
+			if len(assign.Lhs) == 2 {
+				rhs = append(rhs, &ast.SelectorExpr{X: slot, Sel: ast.NewIdent("Ok")})
+			}
+			lhs := make([]ast.Expr, len(assign.Lhs))
+			for j, l := range assign.Lhs {
+				lhs[j] = r.node(l).(ast.Expr)
+			}
+			body = append(body, &ast.AssignStmt{Lhs: lhs, Tok: assign.Tok, Rhs: rhs})
 		}
-		sw.Body.List = append(sw.Body.List, &ast.CaseClause{List: []ast.Expr{&ast.BasicLit{Kind: token.INT, Value: strconv.Itoa(i)}}, Body: body})
+		for _, st := range cc.Body {
+			body = append(body, r.node(st).(ast.Stmt))
+		}
+		sw.Body.List = append(sw.Body.List, &ast.CaseClause{List: []ast.Expr{&ast.BasicLit{Kind: token.INT, Value: strconv.Itoa(ci)}}, Body: body})
+		ci++
 	}
-	sw.Tag = &ast.CallExpr{Fun: vchanSel("Select"), Args: args}
-	// a function ending in a select needs a terminating statement after the switch
-	return &ast.BlockStmt{List: []ast.Stmt{sw, &ast.ExprStmt{X: &ast.CallExpr{Fun: ast.NewIdent("panic"), Args: []ast.Expr{&ast.BasicLit{Kind: token.STRING, Value: `"vchan: select returned no case"`}}}}}}
+	fn := "Select"
+	if hasDefault {
+		fn = "SelectDefault"
+	}
+	sw.Tag = &ast.CallExpr{Fun: vchanSel(fn), Args: args}
+	// "default: panic" makes the switch a terminating statement exactly when every clause of the
+	// select ended in one, as the select itself was
+	sw.Body.List = append(sw.Body.List, &ast.CaseClause{Body: []ast.Stmt{&ast.ExprStmt{X: &ast.CallExpr{Fun: ast.NewIdent("panic"), Args: []ast.Expr{&ast.BasicLit{Kind: token.STRING, Value: `"vchan: select returned no case"`}}}}}})
+	if len(pre) == 0 {
+		return sw
+	}
+	return &ast.BlockStmt{List: append(pre, sw)}
 }
